@@ -9,6 +9,7 @@ CONSTANTS
   Orders = {"fwd", "rev", "rot"}
   PageSize = 2
   MinSpans = 1
+  MinEntries = 0
   ResolveInTrace = FALSE
 INVARIANTS BuildIsWellFormed
 CHECK_DEADLOCK FALSE
